@@ -41,6 +41,89 @@ theorem equal_values_accepted [DecidableEq F] (n c m : F) (k : Nat) :
     allEqual (List.replicate (k + 1) (n + c * m)) = true := by
   simp [allEqual, List.replicate_succ]
 
+/-- the comparison covers **every pair** of collected responses (not only neighbours, and not only disjoint
+pairs): whatever the number of references, two positions with different responses make the test fail -/
+theorem allEqual_every_pair [DecidableEq F] (l : List F) (h : allEqual l = true) (i j : Nat) (x y : F)
+    (hi : l[i]? = some x) (hj : l[j]? = some y) : x = y := by
+  cases l with
+  | nil => simp at hi
+  | cons p ps =>
+    have hp := allEqual_spec p ps h
+    have key : ∀ (k : Nat) (z : F), (p :: ps)[k]? = some z → z = p := by
+      intro k z hk
+      cases k with
+      | zero => simp at hk; exact hk.symm
+      | succ k => simp at hk; exact hp z (List.mem_of_getElem? hk)
+    rw [key i x hi, key j y hj]
+
+theorem allEqual_false_of_differing [DecidableEq F] (l : List F) (i j : Nat) (x y : F)
+    (hi : l[i]? = some x) (hj : l[j]? = some y) (hne : x ≠ y) : allEqual l = false := by
+  cases h : allEqual l with
+  | false => rfl
+  | true => exact absurd (allEqual_every_pair l h i j x y hi hj) hne
+
+/-- the pattern a pairwise-in-chunks comparison misses: `[x, x, y]` -/
+example : allEqual ([5, 5, 6] : List ℚ) = false := by decide
+example : allEqual ([5, 5, 6, 6] : List ℚ) = false := by decide
+
+section verdict
+open AC.Verify AC.Sigma
+variable [DecidableEq F]
+
+theorem mapM_some_forall {α β : Type} (f : α → Option β) :
+    ∀ (l : List α) (rs : List β), l.mapM f = some rs → ∀ a ∈ l, ∃ b, f a = some b := by
+  intro l
+  induction l with
+  | nil => intro rs _ a ha; cases ha
+  | cons x xs ih =>
+    intro rs h a ha
+    rw [List.mapM_cons] at h
+    cases hx : f x with
+    | none => rw [hx] at h; simp at h
+    | some b =>
+      rw [hx] at h
+      cases hxs : xs.mapM f with
+      | none => rw [hxs] at h; simp at h
+      | some bs =>
+        rcases List.mem_cons.mp ha with rfl | ha'
+        · exact ⟨b, hx⟩
+        · exact ih bs hxs a ha'
+
+/-- a reference to a **disclosed** claim has no hidden response: the lookup fails (revealed indices distinct) -/
+theorem linkedResponse_disclosed (n off : Nat) (rvl : List Nat) (proof : List F) (claim : Nat)
+    (hs : (rvl.mergeSort (· ≤ ·)).Pairwise (· < ·)) (hc : claim ∈ rvl) :
+    linkedResponse n off rvl proof claim = none := by
+  unfold linkedResponse
+  cases h : hiddenProofs n off (rvl.mergeSort (· ≤ ·)) proof with
+  | none => rfl
+  | some l =>
+    have hA := (AC.C05.hiddenProofs_sorted n off _ proof l hs h).1
+    have hmem : claim ∈ rvl.mergeSort (· ≤ ·) := (List.mem_mergeSort).mpr hc
+    have : l.find? (·.1 == claim) = none := by
+      rw [List.find?_eq_none]
+      intro x hx hbeq
+      have hx1 : x.1 = claim := by simpa using hbeq
+      have := (hA x.1 x.2 (by simpa using hx)).2.1
+      exact this (hx1 ▸ hmem)
+    simp [this]
+
+/-- **An equality statement one of whose references is disclosed is rejected**, whatever the other references
+and whatever the responses: nothing links a disclosed value to the hidden ones (the prover refuses the
+combination too; seeded change `disclosed-reference-skipped` dropped the reference instead) -/
+theorem equalityVerdict_disclosed_reference (offset claim : Nat) (refs : List (Nat × List Nat × List F))
+    (r : Nat × List Nat × List F) (hr : r ∈ refs)
+    (hs : (r.2.1.mergeSort (· ≤ ·)).Pairwise (· < ·)) (hc : claim ∈ r.2.1) :
+    equalityVerdict offset claim refs = false := by
+  unfold equalityVerdict
+  cases h : refs.mapM (fun r => linkedResponse r.1 offset r.2.1 r.2.2 claim) with
+  | none => rfl
+  | some rs =>
+    obtain ⟨b, hb⟩ := mapM_some_forall _ refs rs h r hr
+    rw [linkedResponse_disclosed r.1 offset r.2.1 r.2.2 claim hs hc] at hb
+    cases hb
+
+end verdict
+
 example : allEqual ([5, 5, 5] : List ℚ) = true := by decide
 
 end AC.C09
